@@ -320,7 +320,9 @@ X_Conc(e) == Ok(e) /\ e.r[1] = e.r[2]
 \* r = <<left-hand side, right-hand side>>, both computed by the real library and
 \* recorded as strings; e.a.law names the law (see harness/fam_laws.go):
 \*   ZoomOutCompose, LookupThenZoomOut, HorizontalMinMaxCompose, InOutMergeIdentity (C03 / C09),
-\*   ShiftComposeLarge (C07), AltitudeKeySubVoxelEnds, KeyToZSubKeyEnds (C12)
+\*   ShiftComposeLarge (C07), AltitudeKeySubVoxelEnds, KeyToZSubKeyEnds, AltitudeKeyTranslate,
+\*   KeyToZTranslate (C12: translation invariance ties indices / offsets beyond 2^28 to the small
+\*   ones whose band X_ZToKey / X_KeyToZ evaluate exactly)
 X_Law(e) == Ok(e) /\ e.r[1] = e.r[2] /\ e.r[1] # <<>>
 
 \* ---- dispatch -------------------------------------------------------------
